@@ -68,6 +68,8 @@ F: Dict[str, Dict[str, Any]] = {
     'docformat':    {'p': '__docformat__="restructuredtext"\n', 'b': '__docformat__="epytext"\ndef g16(): "L{x}"\n', 'c': 'def h16():\n    "`x`"\n'},
     'docformat-fields': {'p': '__docformat__="restructuredtext"\n', 'a': '"""\nMod.\n\n:var v28: doc of v28\n"""\nv28 = 1\n', 'c': 'from p.a import v28\n'},
     'docformat-fields-import': {'p': '__docformat__="restructuredtext"\n', 'b': '"""\nMod.\n\n:var v29: doc of v29\n"""\nv29 = 1\n', 'c': 'import p.b\nw29 = p.b.v29\n'},
+    'exc-reexport-modattr': {'a': 'class E30(Exception): pass\n', 'b': 'from .a import E30\n__all__=["E30"]\n', 'c': 'from . import a as a30\nclass S30(a30.E30): pass\nclass T30(S30): pass\n'},
+    'exc-reexport-init': {'a': 'class E31(KeyError): pass\nclass F31(E31): pass\n', 'p': 'from .a import E31\n__all__=["E31"]\n', 'b': 'from p import E31\nclass S31(E31): pass\n'},
     'doc-inherit':  {'c': 'class A26:\n    def f(self):\n        "inherited doc"\n', 'a': 'from .c import A26\nclass B26(A26):\n    def f(self): pass\n'},
     'cycle':        {'a': 'from .b import B17\nclass A17: pass\nclass A17b(B17): pass\n', 'b': 'from .a import A17\nclass B17(A17): pass\n', '__cyclic__': True},
     'cycle3':       {'a': 'from .b import B27\nclass A27(B27): pass\n', 'b': 'from .c import C27\nclass B27(C27): pass\n', 'c': 'from . import a\nclass C27: pass\nclass D27(a.A27): pass\n', '__cyclic__': True},
